@@ -23,7 +23,7 @@ def check(prog, rep):
     Z.check_alignment(prog, rep, m, 'crosstab', 'crosstab[dask]')
     dask_side = [f for f in allf if 'dask' in f.qualname or (f.jit is not None and f.jit.kind == 'delayed')]
     Z.check_zone_labels(prog, rep, [f for f in allf if 'dask' in f.qualname or f.name == '_select_ids'], entry)
-    Z.check_cursors(rep, dask_side, 'C03', entry)
+    Z.check_cursors(rep, dask_side, 'C03', entry, prog=prog)
     Z.check_unique_zones(prog, rep, dask_side, entry)
     Z.check_index_space(prog, rep, allf, entry)
     Z.check_flatten_order(prog, rep, allf, entry)
